@@ -23,78 +23,92 @@ def run(tier):
     from ocean_science_utilities.wavephysics.windestimate import estimate_u10_from_source_terms
     evals, distinct = 0, set()
     f = pc.freq()
-    bal = create_balance("st4", "st4")
-    plan = [(16, 4), (24, 8), (36, 4)] if quick else [(16, 32), (24, 48), (36, 72)]
-    for N, nsel in plan:
-        els = common.symmetry_elements(chk, N, 0)
-        delta = 360.0 / N
-        dirs = np.arange(N) * delta
-        B = 2
-        vds, winds, wdirs, depths = [], [], [], []
-        for b in range(B):
-            md = rng.uniform(0, 360)
-            vds.append(pc.sea(f, dirs, rng.uniform(0.12, 0.22), rng.uniform(2.0, 4.5), md, rng.uniform(25, 45)) +
-                       (pc.sea(f, dirs, 0.07, 1.0, rng.uniform(0, 360), 15) if b else 0.0))
-            winds.append(rng.uniform(6, 25))
-            wdirs.append((md + rng.uniform(-40, 40)) % 360)
-            depths.append(rng.choice([np.inf, 40.0]))
+    bal_default = create_balance("st4", "st4")
+    bal_tuned = create_balance("st4", "st4")
+    # a non-default parameter set (C08 quantifies over parameter sets; C09 over C08's spectra and winds)
+    bal_tuned.update_parameters({"saturation_breaking_directional_control": 0.3, "viscous_stress_parameter": 0.11})
+    settings = [("default", bal_default, False, [(16, 4), (24, 8), (36, 4)] if quick else [(16, 32), (24, 48), (36, 72)]),
+                ("tuned parameters", bal_tuned, False, [(24, 4)] if quick else [(16, 32), (24, 48), (36, 72)]),
+                ("direction iteration, crossing sea", bal_default, True, [(24, 5)] if quick else [(16, 32), (24, 48), (36, 72)])]
+    for label, bal, diriter, plan in settings:
+      for N, nsel in plan:
+          els = common.symmetry_elements(chk, N, 0)
+          delta = 360.0 / N
+          dirs = np.arange(N) * delta
+          B = 2
+          vds, winds, wdirs, depths = [], [], [], []
+          for b in range(B):
+              md = rng.uniform(0, 360)
+              vds.append(pc.sea(f, dirs, rng.uniform(0.12, 0.22), rng.uniform(2.0, 4.5), md, rng.uniform(25, 45)) +
+                         (pc.sea(f, dirs, 0.07, 1.0, rng.uniform(0, 360), 15) if b else 0.0))
+              if diriter:
+                  # a young bimodal wind sea on top: the first direction update is a large step
+                  side = rng.choice([-120.0, 120.0])
+                  vds[-1] = pc.sea(f, dirs, 0.1, 3.0, md, 30) + pc.sea(f, dirs, 0.25, 0.85, md, 25) + pc.sea(f, dirs, 0.25, 0.85, md + side, 25)
+              winds.append(rng.uniform(6, 25))
+              wdirs.append((md + rng.uniform(-40, 40)) % 360)
+              depths.append(rng.choice([np.inf, 40.0]))
 
-        def evaluate(vd_list, wd_list):
-            spec = pc.spectrum(f, dirs, vd_list, depths)
-            U, W = pc.da(winds), pc.da(wd_list)
-            z0 = bal.generation.roughness(U, W, spec)
-            out = {"gin": bal.generation.rate(spec, U, W, roughness_length=z0).values, "dis": bal.dissipation.rate(spec).values,
-                   "gbulk": bal.generation.bulk_rate(spec, U, W, roughness_length=z0).values, "dbulk": bal.dissipation.bulk_rate(spec).values,
-                   "z0": z0.values}
-            st = bal.generation.stress(spec, U, W, roughness_length=z0)
-            out["stress"], out["stress_dir"] = st["stress"].values, st["direction"].values
-            out["diss_dir"] = bal.dissipation.mean_direction_degrees(spec).values
-            inv = estimate_u10_from_source_terms(spec, bal)
-            out["u10"], out["u10_dir"] = inv["u10"].values, inv["direction"].values
-            return out
-        try:
-            base = evaluate(vds, wdirs)
-        except Exception as e:
-            chk.violation("raise:%s" % type(e).__name__, "source term / stress / inversion raised %s" % type(e).__name__, {"N": N, "error": str(e)[:300]})
-            continue
-        evals += 1
-        sel = rng.sample(els, min(nsel, len(els)))
-        # always include a seam-crossing rotation and the plain mirror
-        for must in [e for e in els if (e["k"], e["s"]) in ((N - 1, 1), (0, -1), (1, -1))]:
-            if must not in sel:
-                sel.append(must)
-        for el in sel:
-            perm = np.array(el["perm"])
-            shift = el["shift"][0] / el["shift"][1]
-            sgn = el["s"]
-            vd2 = [np.asarray(v)[:, perm] for v in vds]
-            wd2 = [(sgn * w + shift) % 360 for w in wdirs]
-            ctx = {"N": N, "k": el["k"], "s": sgn, "wind": winds, "wind_dir": wdirs}
-            try:
-                rot = evaluate(vd2, wd2)
-            except Exception as e:
-                chk.violation("raise:rotated:%s" % type(e).__name__, "evaluation raised after rotation", dict(ctx, error=str(e)[:300]))
-                continue
-            evals += 1
-            distinct.add((N, el["k"], sgn))
-            for name in ("gin", "dis"):
-                want = base[name][:, :, perm]
-                if not np.allclose(rot[name], want, rtol=1e-6, atol=1e-9 * float(np.max(np.abs(want)))):
-                    chk.violation("field:%s" % name, "spectral %s field is not rotated / mirrored with the spectrum and the wind" % name,
-                                  dict(ctx, max_abs_diff=float(np.max(np.abs(rot[name] - want))), scale=float(np.max(np.abs(want)))))
-            # tolerances: the roughness iteration stops at 1e-6 in log z0, the wind inversion at a step of 0.01 m/s; an
-            # iteration count that differs by one between the two runs may move the result by that much
-            for name, rtol, atol in (("gbulk", 1e-5, 0.0), ("dbulk", 1e-9, 0.0), ("z0", 1e-5, 0.0), ("stress", 1e-5, 0.0), ("u10", 1e-6, 5e-3)):
-                if not np.allclose(rot[name], base[name], rtol=rtol, atol=atol, equal_nan=True):
-                    chk.violation("invariant:%s" % name, "%s changes under joint rotation / mirroring" % name,
-                                  dict(ctx, before=base[name].tolist(), after=rot[name].tolist()))
-            for name in ("stress_dir", "diss_dir", "u10_dir"):
-                want = (sgn * base[name] + shift) % 360
-                if np.nanmax(adiff(rot[name], want)) > 1e-3:
-                    chk.violation("direction:%s" % name, "%s is not mapped by the rotation / mirror" % name,
-                                  dict(ctx, before=base[name].tolist(), after=rot[name].tolist(), expected=want.tolist()))
-            if np.any(~np.isfinite(rot["u10"])) and np.all(np.isfinite(base["u10"])):
-                chk.violation("u10-missing", "estimated wind speed becomes missing after rotation", ctx)
+          def evaluate(vd_list, wd_list):
+              spec = pc.spectrum(f, dirs, vd_list, depths)
+              U, W = pc.da(winds), pc.da(wd_list)
+              z0 = bal.generation.roughness(U, W, spec)
+              out = {"gin": bal.generation.rate(spec, U, W, roughness_length=z0).values, "dis": bal.dissipation.rate(spec).values,
+                     "gbulk": bal.generation.bulk_rate(spec, U, W, roughness_length=z0).values, "dbulk": bal.dissipation.bulk_rate(spec).values,
+                     "z0": z0.values}
+              st = bal.generation.stress(spec, U, W, roughness_length=z0)
+              out["stress"], out["stress_dir"] = st["stress"].values, st["direction"].values
+              out["diss_dir"] = bal.dissipation.mean_direction_degrees(spec).values
+              inv = estimate_u10_from_source_terms(spec, bal, direction_iteration=diriter)
+              out["u10"], out["u10_dir"] = inv["u10"].values, inv["direction"].values
+              return out
+          try:
+              base = evaluate(vds, wdirs)
+          except Exception as e:
+              chk.violation("raise:%s" % type(e).__name__, "source term / stress / inversion raised %s" % type(e).__name__, {"setting": label, "N": N, "error": str(e)[:300]})
+              continue
+          evals += 1
+          sel = rng.sample(els, min(nsel, len(els)))
+          if diriter:
+              # the under-relaxed direction update has a seam only for the one or two rotations that put 0/360 between the old and
+              # the new direction estimate: take every rotation
+              sel = [e for e in els if e["s"] == 1] + [e for e in sel if e["s"] == -1]
+          # always include a seam-crossing rotation and the plain mirror
+          for must in [e for e in els if (e["k"], e["s"]) in ((N - 1, 1), (0, -1), (1, -1))]:
+              if must not in sel:
+                  sel.append(must)
+          for el in sel:
+              perm = np.array(el["perm"])
+              shift = el["shift"][0] / el["shift"][1]
+              sgn = el["s"]
+              vd2 = [np.asarray(v)[:, perm] for v in vds]
+              wd2 = [(sgn * w + shift) % 360 for w in wdirs]
+              ctx = {"setting": label, "N": N, "k": el["k"], "s": sgn, "wind": winds, "wind_dir": wdirs}
+              try:
+                  rot = evaluate(vd2, wd2)
+              except Exception as e:
+                  chk.violation("raise:rotated:%s" % type(e).__name__, "evaluation raised after rotation", dict(ctx, error=str(e)[:300]))
+                  continue
+              evals += 1
+              distinct.add((label, N, el["k"], sgn))
+              for name in ("gin", "dis"):
+                  want = base[name][:, :, perm]
+                  if not np.allclose(rot[name], want, rtol=1e-6, atol=1e-9 * float(np.max(np.abs(want)))):
+                      chk.violation("field:%s" % name, "spectral %s field is not rotated / mirrored with the spectrum and the wind" % name,
+                                    dict(ctx, max_abs_diff=float(np.max(np.abs(rot[name] - want))), scale=float(np.max(np.abs(want)))))
+              # tolerances: the roughness iteration stops at 1e-6 in log z0, the wind inversion at a step of 0.01 m/s; an
+              # iteration count that differs by one between the two runs may move the result by that much
+              for name, rtol, atol in (("gbulk", 1e-5, 0.0), ("dbulk", 1e-9, 0.0), ("z0", 1e-5, 0.0), ("stress", 1e-5, 0.0), ("u10", 1e-6, 5e-3)):
+                  if not np.allclose(rot[name], base[name], rtol=rtol, atol=atol, equal_nan=True):
+                      chk.violation("invariant:%s" % name, "%s changes under joint rotation / mirroring" % name,
+                                    dict(ctx, before=base[name].tolist(), after=rot[name].tolist()))
+              for name in ("stress_dir", "diss_dir", "u10_dir"):
+                  want = (sgn * base[name] + shift) % 360
+                  if np.nanmax(adiff(rot[name], want)) > 1e-3:
+                      chk.violation("direction:%s" % name, "%s is not mapped by the rotation / mirror" % name,
+                                    dict(ctx, before=base[name].tolist(), after=rot[name].tolist(), expected=want.tolist()))
+              if np.any(~np.isfinite(rot["u10"])) and np.all(np.isfinite(base["u10"])):
+                  chk.violation("u10-missing", "estimated wind speed becomes missing after rotation", ctx)
     chk.set("evaluations", evals)
     chk.set("distinct_nontrivial", len(distinct))
     chk.assume("Symmetry.tla supplies the group elements, the bin permutation and the angle map; closeness is relative 2e-6 (the roughness Newton "
